@@ -266,17 +266,21 @@ PROPS = {
         "not_covered": ["component_decomposition for N outside {1,2,8,252,256}", "semantic lemma for truncation / decomposition"],
     },
     "C12": {
-        "r": [("widgets", lambda n: n.startswith("curve_addition.")), ("gadgets", lambda n: n.startswith("point.")), ("composer_leaves", lambda n: "internal" in n)],
+        "v_units": ["composer_bits_select.py"],      # component_select / select_one / select_zero / boolean: callees of component_select_point and select_identity
+        "r": [("widgets", lambda n: n.startswith("curve_addition.")), ("gadgets", lambda n: n.startswith("point.") or n.startswith("bits.component_decomposition")),
+              ("composer_leaves", lambda n: "internal" in n)],
         "claim": "(a) curve-addition widget: prover quotient term, linearisation and verifier commitment term equal the twisted-Edwards "
                  "(a = -1) addition law in polynomial form: x1*y2 - w, (w + y1 x2) - x3 (1 + d w y1 x2), (y1 y2 + x1 x2) - y3 (1 - d w y1 x2); "
                  "(b) gadget wiring as composer-operation sequences: add_point_gates (selected row (x1,y1,x2,y2), carrier row (x3,y3,0,x1*y2), "
                  "honest values x1*y2 and the affine sum, identity stand-in when Z = 0 with the SAME shape), component_add/sub/neg_point, "
                  "select_identity_gates, component_select_identity (boolean row present), component_select_point, component_mul_point "
-                 "(252-bit decomposition, MSB first, double then conditional add, all 252 rounds).",
-        "technique": "contract-based deductive verification: ring/trace contract checker (exact polynomial normal form)",
-        "level_note": "NOT covered: the group law of dusk-jubjub (A4), uniqueness of (x3,y3) (A5); component_decomposition by assumed contract.",
+                 "(252-bit decomposition, MSB first, double then conditional add, all 252 rounds). "
+                 "(c) the callees the point gadgets are built from: component_select / select_one / select_zero / component_boolean (Verus, all values) and "
+                 "component_decomposition (instances N = 1, 2, 8, 252: 2N+1 rows, every call emits its own rows).",
+        "technique": "contract-based deductive verification: ring/trace contract checker (exact polynomial normal form, composer-operation traces) + Verus on the select / boolean callees",
+        "level_note": "NOT covered: the group law of dusk-jubjub (A4), uniqueness of (x3,y3) (A5).",
         "design_ref": "DESIGN.md §4 C12",
-        "assumptions": A_RING + ["EDWARDS_D treated as an opaque constant symbol"], "trusted": T_RING,
+        "assumptions": A_RING + A_VERUS + ["EDWARDS_D treated as an opaque constant symbol"], "trusted": T_RING + T_VERUS,
         "not_covered": ["group law (A4, A5)"],
     },
     "C13": {
